@@ -145,8 +145,11 @@ bool CPPCMS_API decode(std::string const &input,std::string &output)
 	int ds = decoded_size(input.size());
 	if(ds < 0)
 		return false;
-	if(ds == 0)
+	if(ds == 0) {
+		// the empty text decodes to the empty string, not to whatever the caller's string held
+		output.clear();
 		return true;
+	}
 	unsigned char const *begin = reinterpret_cast<unsigned char const *>(input.c_str());
 	unsigned char const *end = begin + input.size();
 	std::vector<char> buf(ds,0);
